@@ -211,6 +211,17 @@ fn param_cases(rep: &mut Report, rng: &mut R) {
     // bits per component 16, one colour, 2 columns -> rows of 4 bytes, bpp = 2
     let d = &payload[..16];
     check(rep, "params:flate:png-bpc16", rc::zlib(&rc::png_filter(d, 4, 2, &[1, 4, 3, 2])), StreamFilter::FlateDecode(params(15, 1, 16, 2, 1)), d);
+    // several components of fewer than 8 bits share bytes: a row has ceil(columns*colors*bits/8) bytes, the "left" sample of the PNG
+    // filters is ceil(colors*bits/8) bytes back (PNG specification: bytes per complete pixel, rounding up to one)
+    for (colors, bits, cols) in [(2usize, 4usize, 5usize), (3, 4, 3), (4, 4, 4), (3, 1, 11), (4, 2, 6), (3, 2, 5), (2, 1, 9), (2, 16, 2), (3, 16, 1)] {
+        let rowlen = (cols * colors * bits + 7) / 8;
+        let bpp = (colors * bits + 7) / 8;
+        let d = &payload[..rowlen * 5];
+        let class = format!("params:flate:png-bpc{}x{}", bits, colors);
+        check(rep, &class, rc::zlib(&rc::png_filter(d, rowlen, bpp, &[1, 3, 4, 2, 0])), StreamFilter::FlateDecode(params(15, colors as i32, bits as i32, cols as i32, 1)), d);
+        let class = format!("params:lzw:png-bpc{}x{}", bits, colors);
+        check(rep, &class, rc::lzw_encode(&rc::png_filter(d, rowlen, bpp, &[4, 1, 3, 2, 0]), true), StreamFilter::LZWDecode(params(15, colors as i32, bits as i32, cols as i32, 1)), d);
+    }
     // plain codecs
     check(rep, "params:lzw:ec0", rc::lzw_encode(&payload, false), StreamFilter::LZWDecode(params(1, 1, 8, 1, 0)), &payload);
     check(rep, "params:lzw:ec1", rc::lzw_encode(&payload, true), StreamFilter::LZWDecode(params(1, 1, 8, 1, 1)), &payload);
